@@ -64,6 +64,16 @@ def reset(gf, capacity):
     used = 'real'
     if hasattr(fn, 'cache_clear'):
         fn.cache_clear()
+    # any further memo the module may keep (functools caches, class-level scratch dicts) is shared state the property is
+    # about: it is cleared between executions so that every execution, and every replay, starts from the same state
+    for name, val in list(vars(gf).items()):
+        if val is fn:
+            continue
+        if callable(getattr(val, 'cache_clear', None)) and hasattr(val, '__wrapped__'):
+            try:
+                val.cache_clear()
+            except Exception:  # noqa
+                pass
     if capacity is not None and inner is not None:
         gf._filter_function = functools.lru_cache(maxsize=capacity)(inner)
         used = capacity
@@ -247,6 +257,62 @@ def history_task(seqs, capacity):
     return st
 
 
+# Filters whose texts differ only in the KIND of their literal (or in blanks / redundant parentheses): any memo keyed on a
+# lossy rendering of the filter makes one of them run the other's code.
+FAMILY = [
+    ('x == 75', ('cmp', '==', ('x',), N.num(75.0))), ('x == "75.0"', ('cmp', '==', ('x',), ('str', '75.0'))), ('x == "75"', ('cmp', '==', ('x',), ('str', '75'))),
+    ('x == 2020-01-01', ('cmp', '==', ('x',), ('date', 2020, 1, 1))), ('x == "2020-01-01"', ('cmp', '==', ('x',), ('str', '2020-01-01'))),
+    ('x == @s1', ('cmp', '==', ('x',), ('ref', 's1', None))), ('x == "@s1"', ('cmp', '==', ('x',), ('str', '@s1'))), ('x == "s1"', ('cmp', '==', ('x',), ('str', 's1'))),
+    ('x == true', ('cmp', '==', ('x',), ('bool', True))), ('x == "True"', ('cmp', '==', ('x',), ('str', 'True'))), ('x == "true"', ('cmp', '==', ('x',), ('str', 'true'))),
+    ('x == `u`', ('cmp', '==', ('x',), ('uri', 'u'))), ('x == "u"', ('cmp', '==', ('x',), ('str', 'u'))),
+    ('x == 12:00:00', ('cmp', '==', ('x',), ('time', 12, 0, 0, 0))), ('x == "12:00:00"', ('cmp', '==', ('x',), ('str', '12:00:00'))),
+    ('x  ==  75', ('cmp', '==', ('x',), N.num(75.0))), ('(x == 75)', ('cmp', '==', ('x',), N.num(75.0))),
+    ('x == "a  b"', ('cmp', '==', ('x',), ('str', 'a  b'))), ('x == "a b"', ('cmp', '==', ('x',), ('str', 'a b'))),
+    ('x', ('has', ('x',))), ('not x', ('not', ('x',))),
+]
+FAMILY_VALUES = [N.num(75.0), ('str', '75.0'), ('str', '75'), ('date', 2020, 1, 1), ('str', '2020-01-01'), ('ref', 's1', None), ('str', '@s1'), ('str', 's1'),
+                 ('bool', True), ('str', 'True'), ('str', 'true'), ('uri', 'u'), ('str', 'u'), ('time', 12, 0, 0, 0), ('str', '12:00:00'), ('str', 'a  b'), ('str', 'a b')]
+
+
+def family_task(seqs):
+    """Every listed order of near-colliding filters on one grid, in one process state."""
+    import hszinc as hs
+    from hszinc import grid_filter as gf
+    from ref import observe as O
+    st = Stats()
+    rows = [{'id': ('str', 'v%d' % i), 'x': v} for i, v in enumerate(FAMILY_VALUES)] + [{'id': ('str', 'none')}]
+    expected = {}
+    for text, ast in FAMILY:
+        expected[text] = tuple(r['id'][1] for r in rows if RF.evaluate(ast, r, rows) is True)
+    for seq in seqs:
+        gc.disable()
+        reset(gf, None)
+        g = hs.Grid(version='3.0', columns=[('id', []), ('x', [])])
+        for r in rows:
+            g.append({k: O.build(v, hs) for k, v in r.items()})
+        problem = None
+        for step, fi in enumerate(seq):
+            text = FAMILY[fi][0]
+            st.count('transitions')
+            try:
+                got = tuple(r['id'] for r in g.filter(text))
+            except BaseException as e:  # noqa
+                got = 'raised:' + type(e).__name__
+            if got != expected[text]:
+                problem = 'step %d filter %r after %r: %r != %r' % (step, text, [FAMILY[i][0] for i in seq[:step]], got, expected[text])
+                break
+        gc.enable()
+        st.count('executions')
+        st.count('states', len(seq))
+        st.case(('family', tuple(seq)), nontrivial=True, outcome=('family', bool(problem)))
+        if problem:
+            st.fail('filter-result-depends-on-filters-used-earlier', {'shape': 'near-collision-family', 'second': FAMILY[seq[-1]][0] if len(seq) > 1 else '-'},
+                    {'kind': 'family', 'seq': list(seq)}, {'what': problem})
+    if seqs:
+        st.samples.append({'near_collision_sequence': [FAMILY[i][0] for i in seqs[0]]})
+    return st
+
+
 def long_history(kind, n, laps):
     """Boundary histories with the real cache capacity: individual long runs, not exhaustive."""
     import hszinc as hs
@@ -324,6 +390,13 @@ def run(ctx):
         seeded_rng(ctx.seed, 'c13h').shuffle(seqs)
         for part in pmap(history_task, [(c, cap) for c in chunks(seqs, ctx.jobs * 2)], ctx.jobs):
             st.merge(part)
+    n = len(FAMILY)
+    fam = [(i,) for i in range(n)] + [(i, j) for i in range(n) for j in range(n) if i != j]
+    if not ctx.quick:
+        fam += [(i, j, k) for i in range(n) for j in range(n) for k in range(n) if len({i, j, k}) == 3 and (i + j + k) % 3 == 0]
+    seeded_rng(ctx.seed, 'c13f').shuffle(fam)
+    for part in pmap(family_task, [(c,) for c in chunks(fam, ctx.jobs * 2)], ctx.jobs):
+        st.merge(part)
     longs = [('cyclic', 499, 2), ('cyclic', 500, 2), ('cyclic', 501, 2), ('cyclic', 502, 2), ('hot-cold', 1100, 1), ('hot-cold', 520, 2)]
     if not ctx.quick:
         longs += [('cyclic', 1500, 2), ('cyclic', 501, 3), ('cyclic', 502, 3), ('hot-cold', 2600, 1), ('hot-cold', 5200, 1)]
@@ -333,7 +406,7 @@ def run(ctx):
         'stats': st, 'exhaustive': True,
         'rule': 'schedules: every interleaving (scheduling point = every source line of the non-lambda functions of hszinc/grid_filter.py and of '
                 'Grid.filter) of the listed thread plans with at most preemption_bound preemptions, each followed by a sequential post-phase; '
-                'histories: every request sequence of length <= %d over 4 filters with cache capacity 1 and 2; plus individual long histories around '
+                'histories: every request sequence of length <= %d over 4 filters with cache capacity 1 and 2; every ordered pair of 21 near-colliding filters (same text up to the kind of the literal, blanks or parentheses) from a clean state; plus individual long histories around '
                 'the real capacity (reported as individual runs, not exhaustive); evaluations = complete executions of the real code; distinct = '
                 'distinct (plan, capacity, schedule) or request sequence; non-trivial = at least one non-default scheduling choice / two different filters' % L,
         'coverage': {'bounds': {'schedule_plans': bounds, 'history_length': L, 'history_capacities': [1, 2], 'long_histories': longs},
@@ -349,6 +422,8 @@ def replay(case, st):
         s, obs, problems, used = one_execution(case['schedule'], case['plan'], case['capacity'])
         for sym, text in problems[:2]:
             st.fail(sym, {'capacity': str(used)}, case, {'what': text})
+    elif case['kind'] == 'family':
+        st.merge(family_task([tuple(case['seq'])]))
     elif case['kind'] == 'history':
         st.merge(history_task([tuple(case['seq'])], case['capacity']))
     else:
